@@ -7,10 +7,74 @@ from .common import *
 
 SRC_A = "src/CppUTest/TestMemoryAllocator.cpp"
 SRC_C = "src/CppUTest/TestHarness_c.cpp"
+SRC_P = "src/CppUTest/MemoryLeakWarningPlugin.cpp"
+
+NEW_FNS = ["operator_new", "operator_new_nothrow", "operator_new_debug",
+           "operator_new_array", "operator_new_array_nothrow", "operator_new_array_debug"]
 
 
 def norm(s):
     return re.sub(r"\s+", "", s)
+
+
+def throws_on_null(p, fn):
+    """does the tracked operator-new function `fn` turn a NULL from the allocator into std::bad_alloc?  Two body shapes are
+    understood (behind an optional `MemLeakScopedMutex lock;`): `return <detector>->allocMemory(...);` (NULL handed through) and
+    `void* memory = <detector>->allocMemory(...); UT_THROW_BAD_ALLOC_WHEN_NULL(memory); return memory;`"""
+    b = norm(function_body(p, r"static\s+void\s*\*\s*%s\s*\([^)]*\)[^{;]*\{" % fn))
+    if fn.startswith("threadsafe_"):
+        if not b.startswith("MemLeakScopedMutexlock;"):
+            raise TranslateError("%s no longer starts with `MemLeakScopedMutex lock;`" % fn)
+        b = b[len("MemLeakScopedMutexlock;"):]
+    call = r"MemoryLeakWarningPlugin::getGlobalDetector\(\)->allocMemory\([^;]*\)"
+    if re.fullmatch(r"return" + call + ";", b):
+        return False
+    m = re.fullmatch(r"void\*(\w+)=" + call + r";UT_THROW_BAD_ALLOC_WHEN_NULL\((\w+)\);return(\w+);", b)
+    if m and m.group(1) == m.group(2) == m.group(3):
+        return True
+    raise TranslateError("body of %s not understood (neither `return allocMemory(...)` nor allocate / throw when NULL / return): %s" % (fn, b[:200]))
+
+
+def fptr_table(p, fn):
+    body = function_body(p, r"void\s+MemoryLeakWarningPlugin::%s\s*\(\s*\)\s*\{" % fn)
+    body = norm(re.sub(r"(?m)^\s*#.*$", "", body))
+    tab = re.findall(r"(\w+_fptr)=(\w+);", body)
+    want = [f + "_fptr" for f in NEW_FNS]
+    got = [t for t in tab if t[0] in want]
+    if sorted(t[0] for t in got) != sorted(want):
+        raise TranslateError("%s does not assign each operator-new function pointer exactly once" % fn)
+    return got
+
+
+def operator_forms(p):
+    """which function pointer each `operator new` / `operator new[]` definition calls: form name = the pointer's family"""
+    forms = {}
+    for m in re.finditer(r"void\s*\*\s*operator\s+new\s*(\[\s*\])?\s*\(([^)]*)\)[^{;]*\{", p):
+        params = norm(m.group(2))
+        if "nothrow_t" in params:
+            kind = "_nothrow"
+        elif params.startswith("size_tsize,constchar*"):
+            kind = "_debug"
+        elif params == "size_tsize":
+            kind = ""
+        else:
+            continue
+        form = "operator_new" + ("_array" if m.group(1) else "") + kind
+        body = norm(function_body(p[m.start():], r"void\s*\*\s*operator\s+new[^{;]*\{"))
+        c = re.fullmatch(r"return(\w+_fptr)\(size(,file,(\(size_t\))?line)?\);", body)
+        if not c:
+            raise TranslateError("operator new definition (%s) is not a single call through a function pointer: %s" % (params, body[:120]))
+        if forms.setdefault(form, c.group(1)) != c.group(1):
+            raise TranslateError("two definitions of %s call different function pointers" % form)
+    if sorted(forms) != sorted(NEW_FNS):
+        raise TranslateError("operator new definitions found: %s" % sorted(forms))
+    return [(f, forms[f]) for f in NEW_FNS]
+
+
+def lean_pairs(name, doc, pairs, fmt):
+    return "/-- %s -/\ndef %s : List (String × %s) := [\n%s]\n" % (
+        doc, name, "Bool" if fmt == "b" else "String",
+        ",\n".join('  ("%s", %s)' % (a, (str(b).lower() if fmt == "b" else '"%s"' % b)) for a, b in pairs))
 
 
 def extract():
@@ -26,10 +90,21 @@ def extract():
     # constructor: head_(NULLPTR), currentAllocNumber_(0)
     if not re.search(r"head_\s*\(\s*NULLPTR\s*\)\s*,\s*currentAllocNumber_\s*\(\s*(0)\s*\)", a):
         raise TranslateError("FailableMemoryAllocator constructor no longer starts with head_(NULLPTR), currentAllocNumber_(0)")
-    text = HEADER % ("translate/extract_failable.py", SRC_C)
+    text = HEADER % ("translate/extract_failable.py", SRC_C + ", " + SRC_P)
     text += "namespace Gen.Failable\n"
     text += "def noCountdown : Int := %d\n" % no_cd
     text += "def outOfMemory : Int := %d\n" % oom
+    # the operator new overloads in front of the allocator (src/CppUTest/MemoryLeakWarningPlugin.cpp)
+    p = strip_comments(read(SRC_P))
+    fns = ["mem_leak_" + f for f in NEW_FNS] + ["threadsafe_mem_leak_" + f for f in NEW_FNS]
+    text += lean_pairs("newThrowsOnNull", "tracked operator-new function, and whether its body turns a NULL from the allocator into "
+                       "`std::bad_alloc` (otherwise NULL is handed to the caller)", [(f, throws_on_null(p, f)) for f in fns], "b")
+    text += lean_pairs("operatorFptr", "`operator new` / `operator new[]` form (plain, nothrow, with file/line) and the function pointer its "
+                       "definition calls", operator_forms(p), "s")
+    text += lean_pairs("plainOverloads", "`turnOnDefaultNotThreadSafeNewDeleteOverloads`: function pointer := function",
+                       fptr_table(p, "turnOnDefaultNotThreadSafeNewDeleteOverloads"), "s")
+    text += lean_pairs("threadSafeOverloads", "`turnOnThreadSafeNewDeleteOverloads`: function pointer := function",
+                       fptr_table(p, "turnOnThreadSafeNewDeleteOverloads"), "s")
     text += "end Gen.Failable\n"
     return text
 
